@@ -290,8 +290,8 @@ def run(pm, ctx):
     ctx.rule("C03-j", "the direction handed to the optimiser is -(chain rule of the GEMINI gradient through the model's own forward function) plus "
              "the gradient of the model's penalty: symbolic differentiation of _infer compared, as canonical forms, with _compute_grads / _update_weights", floor=17)
     chain_rule(pm, ctx)
-    ctx.rule("C03-k", "Douglas: the direction of the leaf scores and the gradient on each binning's logits are the chain rule through the two softmax layers "
-             "(local term comparison with declared inputs; the Kronecker / cumsum / sort steps are judged by C03-i and the structural rules)", floor=2)
+    ctx.rule("C03-k", "Douglas: the direction of the leaf scores, the gradient on the leaf memberships and the gradient on each binning's logits are the chain rule through "
+             "the two softmax layers (local term comparison with declared inputs; the Kronecker / cumsum / sort steps are judged by C03-l/m/n/i)", floor=3)
     from ..e8_models import douglas_local
     from ..e8_index import Unsupported as _U8
     du = pm.unit("gemclus.tree.douglas")
@@ -317,6 +317,40 @@ def run(pm, ctx):
             ctx.violation("C03-l", du.relpath, "Douglas._merge_leaf", "product layout", det_, line=pm.classes["Douglas"].methods["_merge_leaf"].lineno, site=site)
     except _U8 as e:
         ctx.unrecognised("C03-l", site, f"outside the translated subset: {e}")
+    ctx.rule("C03-m", "Douglas: the update of each cut-point vector is minus the chain rule through sort -> padding -> cumulative sum of the bin biases: the "
+             "coefficient matrix of the backward pass is the transpose of the forward one for every number of cuts (linear sequence maps, n = 1..7), summed over "
+             "the samples and mapped back by the inverse sorting permutation", floor=1)
+    from .. import e9_douglas
+    e9res, e9fw, e9bw = e9_douglas.judge_full(pm)
+    pm._e9_douglas = (e9res, e9fw, e9bw)
+    for site, status, detail, (meth, line) in e9res:
+        if not site.startswith("Douglas._compute_grads"):
+            continue
+        if status == "exact":
+            ctx.ok("C03-m", site, detail)
+        elif status == "undecided":
+            ctx.unrecognised("C03-m", site, detail)
+        else:
+            ctx.violation("C03-m", du.relpath, f"Douglas.{meth}", site, detail, line=line or pm.classes["Douglas"].methods[meth].lineno, site=site)
+    if not any(site.startswith("Douglas._compute_grads") for site, *_ in e9res):
+        ctx.unrecognised("C03-m", "Douglas._compute_grads: cut-point update", "the forward map cuts -> biases could not be derived: " + "; ".join(d for _, s_, d, _ in e9res if s_ != "exact")[:200])
+    ctx.rule("C03-n", "Douglas: each binning's softmax backprop starts from the marginal of (leaf gradient x leaf memberships) over the axes of all OTHER features: the leaf axis "
+             "is un-flattened with one axis per used feature in list order and summed over every feature axis but its own (shape expressions folded for 1, 2 and 3 features "
+             "with different numbers of cuts)", floor=6)
+    from .. import e9_kron
+    gname = next((d_.split("name=")[1] for s_, st_, d_ in res if s_ == "Douglas: gradient on the leaf memberships" and st_ == "exact" and "name=" in d_), None)
+    site = "Douglas._compute_grads: Kronecker marginalisation"
+    if gname is None:
+        ctx.unrecognised("C03-n", site, "the gradient on the leaf memberships was not identified (C03-k)")
+    else:
+        try:
+            for st_, det_, line_ in e9_kron.judge(pm, gname):
+                if st_ == "exact":
+                    ctx.ok("C03-n", f"{site}: {det_}")
+                else:
+                    ctx.violation("C03-n", du.relpath, "Douglas._compute_grads", "weighted_grad", det_, line=line_, site=f"{site}: {det_.split(':')[0]}")
+        except e9_kron.Unsupported as e:
+            ctx.unrecognised("C03-n", site, f"outside the folded subset: {e}")
     concrete = pm.concrete_estimators()
     # representative concrete estimator per _compute_grads definition
     def any_concrete(ci):
@@ -580,7 +614,17 @@ def run(pm, ctx):
     dg = pm.classes["Douglas"].methods["_compute_grads"]
     cfgd = CFG(dg)
     back = [s for s in cfgd.nodes if isinstance(s, ast.Assign) and isinstance(s.value, ast.Subscript) and any(isinstance(n, ast.Attribute) and n.attr == "_all_orders" for n in ast.walk(s.value.slice))]
-    if len(back) != 1:
+    _e9 = getattr(pm, "_e9_douglas", (None, None, None))
+    if _e9[1] is not None and _e9[2] is not None and not _e9[2]["update"].in_perm:
+        # decided on the derived maps: whatever the spelling (gather by argsort(order), scatter through order, ...)
+        fwp, bwp = _e9[1]["bias"].in_perm, _e9[2]["update"].out_perm
+        if bwp == -fwp:
+            ctx.ok("C03-i", "Douglas._compute_grads: un-sorting", "the update is mapped back by the inverse of the permutation the forward pass gathers the cuts with")
+        else:
+            ctx.violation("C03-i", pm.classes["Douglas"].unit.relpath, "Douglas._compute_grads", "cut-point update", "the sorted-space cut gradient is not re-indexed by the inverse "
+                          "of the permutation used by the forward pass: with 3 or more cuts a cut receives another cut's gradient", line=_e9[2]["line"],
+                          site="Douglas._compute_grads: un-sorting")
+    elif len(back) != 1:
         ctx.unrecognised("C03-i", "Douglas._compute_grads: un-sorting", "no single re-indexing by the retained sort orders")
     else:
         idx = back[0].value.slice
@@ -887,4 +931,25 @@ def controls(pm, tier):
          "Douglas: bin softmax backprop with a mean")
     kmut('        product = np.einsum("ij,ik->ijk", leaf_res1, leaf_res2)', '        product = leaf_res1[:, np.newaxis, :] * leaf_res2[:, :, np.newaxis]', "Douglas: Kronecker order swapped")
     out[-1]["rule"] = "C03-l"
+    for find, repl, name in [
+        ("            bias_grad = bin_grad.sum(0)[1:]", "            bias_grad = bin_grad.sum(0)[:-1]", "Douglas: the last bias gradient is dropped instead of the constant first one"),
+        ("            cumsum_grad = -np.cumsum(bias_grad[::-1])[::-1]", "            cumsum_grad = -np.cumsum(bias_grad)", "Douglas: forward cumulative sum in the backward pass"),
+        ("            cumsum_grad = -np.cumsum(bias_grad[::-1])[::-1]", "            cumsum_grad = np.cumsum(bias_grad[::-1])[::-1]", "Douglas: sign of the cut gradient"),
+        ("            bias_grad = bin_grad.sum(0)[1:]", "            bias_grad = bin_grad.mean(0)[1:]", "Douglas: bias gradient averaged over the samples"),
+        ("np.concatenate([np.zeros(1), -sorted_cut_points])", "np.concatenate([-sorted_cut_points, np.zeros(1)])", "Douglas: padding on the wrong side in the forward pass only"),
+    ]:
+        kmut(find, repl, name)
+        out[-1]["rule"] = "C03-m"
+    kmut("        binning_backprop = y_pred_grad @ self.leaf_scores_.T", "        binning_backprop = gradient @ self.leaf_scores_.T", "Douglas: leaf gradient skips the softmax Jacobian")
+    for find, repl, name in [
+        ("if i != j])", "if i == j])", "Douglas: marginal over the feature's own axis"),
+        ("        binning_backprop *= self._leaf.reshape(axes_for_reshape)\n", "", "Douglas: leaf memberships dropped from the product rule"),
+        ("[len(x[1]) + 1 for x in self.cut_points_list_])", "[len(x[1]) + 1 for x in self.cut_points_list_[::-1]])", "Douglas: leaf axis un-flattened in reverse feature order"),
+        ("axes_for_sum = tuple([1 + j for j", "axes_for_sum = tuple([2 + j for j", "Douglas: axes shifted by one"),
+    ]:
+        kmut(find, repl, name)
+        out[-1]["rule"] = "C03-n"
+    kmut("            cut_grad = cumsum_grad[np.argsort(self._all_orders[i])]", "            cut_grad = np.empty_like(cumsum_grad)\n            cut_grad[np.argsort(self._all_orders[i])] = cumsum_grad",
+         "Douglas: scatter through the inverse permutation (= gather by the forward one)")
+    out[-1]["rule"] = "C03-i"
     return out
